@@ -83,8 +83,8 @@ def c_client_stream(limit: int, ending: int, dispose_at: int, channel: bool) -> 
     holds M elements and sends them as far as the requester's credit allows, then completes (ending 0), completes on
     the last element (1) or fails (2); the application disposes the result observable after `dispose_at` elements
     (M+1: never).  request_limit is a SYMBOLIC 31-bit integer.  The observer sees exactly the elements delivered, in
-    order, with the terminal preserved; REQUEST_STREAM/CHANNEL carries initial n == limit and every REQUEST_N == limit
-    (never more than limit at a time); disposing a pending stream emits exactly one CANCEL and nothing reaches the
+    order, with the terminal preserved; REQUEST_STREAM/CHANNEL carries initial n == limit and no REQUEST_N exceeds limit
+    (outstanding demand never exceeds limit); disposing a pending stream emits exactly one CANCEL and nothing reaches the
     observer afterwards.
 
     pre: 1 <= limit <= 0x7FFFFFFF
@@ -161,12 +161,12 @@ def c_client_stream(limit: int, ending: int, dispose_at: int, channel: bool) -> 
                 devs.append('C20:dispose-produced-%d-CANCEL-frames' % len(cancels))
         elif got != want:
             devs.append('C20:observer-events-differ-from-what-the-peer-sent')
+        # the request limit bounds how many elements are requested at a time: outstanding demand never exceeds it
+        if _credit(t) - sent > limit:
+            devs.append('C20:outstanding-demand-exceeds-request-limit')
         for f in t.frames(1):
-            if isinstance(f, RequestNFrame) and f.request_n != limit:
-                devs.append('REQUEST_N-differs-from-request-limit')
-        rn = len([f for f in t.frames(1) if isinstance(f, RequestNFrame)])
-        if limit > 0 and rn > (sent // limit if limit <= sent else 0):
-            devs.append('more-REQUEST_N-than-batches-consumed')
+            if isinstance(f, RequestNFrame) and f.request_n > limit:
+                devs.append('C20:REQUEST_N-larger-than-request-limit')
         stats.note(sent >= 1, {'lib': LIB, 'm': M, 'ending': ending, 'dispose_at': dispose_at, 'channel': channel, 'delivered': sent})
         d = generic_dev(loop, c)
         if d:
@@ -448,8 +448,8 @@ def c_handler_adapter(kind: int, n0: int, n1: int, bp: bool, err: bool, limit_ra
                 devs.append('backpressure-factory-not-asked-for-the-credited-amounts')
             if kind == 5:
                 rn = [f.request_n for f in t.frames(sid) if isinstance(f, RequestNFrame)]
-                if not rn or rn[0] != limit_rate or any(x != limit_rate for x in rn):
-                    devs.append('C20:channel-adapter-does-not-request-limit_rate')
+                if not rn or any(x > limit_rate for x in rn):
+                    devs.append('C20:channel-adapter-requests-more-than-limit_rate-at-a-time')
                 k = 0
                 while k < 2 and sum(rn) > k:
                     t.feed_wire(to_payload_frame(sid, Payload(bytes([120 + k])), complete=False))
